@@ -308,3 +308,72 @@ func TestC15_unset_multiplier(t *testing.T) {
 		Run: runC15U,
 	})
 }
+
+// ---- the "default" probe interval of Gradient ---------------------------------------------------------
+//
+// A probe interval of 0 selects the library's default. Its value is not assumed; only that it is an interval at
+// all: after an RTT step up the obsolete low baseline must be reset within 2 x 50000 further samples (the shipped
+// default is 1000; nothing is asserted about it). Probing disabled (-1) is outside the claim.
+
+type c15gCase struct {
+	Cfg   LimitCfg `json:"cfg"`
+	LowN  int      `json:"low_n"`
+	Low   int64    `json:"low"`
+	High  int64    `json:"high"`
+	Steps int      `json:"steps"`
+}
+
+const c15gSanityInterval = 50_000
+
+func runC15G(_ *testing.T, c c15gCase) kit.Outcome {
+	rand.Seed(c.Cfg.JitterSeed)
+	l := buildLimit(c.Cfg, nil).Inner.(*limit.GradientLimit)
+	for i := 0; i < c.LowN; i++ {
+		l.OnSample(0, c.Low, 0, false)
+	}
+	if b := l.RTTNoLoad(); b != c.Low {
+		return kit.Viol("gradient:baseline", "after %d samples of rtt=%d the baseline reads %d", c.LowN, c.Low, b)
+	}
+	resets := 0
+	rtt := c.High
+	for step := 0; step <= c.Steps; step++ {
+		before := l.RTTNoLoad()
+		reset := false
+		for i := 0; i < 2*c15gSanityInterval; i++ {
+			l.OnSample(0, rtt, 0, false)
+			if nl := l.RTTNoLoad(); nl > before || nl == 0 {
+				reset = true
+				break
+			}
+		}
+		if !reset {
+			return kit.Viol("gradient:default-interval", "Gradient built with probe interval 0 (the library's default): after the RTT rose from %d to %d the obsolete baseline %d survived %d samples - no interval, however large its default, allows that (the sanity bound is 2 x %d)",
+				before, rtt, before, 2*c15gSanityInterval, c15gSanityInterval)
+		}
+		resets++
+		rtt = rtt*2 + 1
+	}
+	return kit.Outcome{NonTrivial: resets >= 1, Labels: []string{"gradient-default-interval"}}
+}
+
+func TestC15_default_interval(t *testing.T) {
+	kit.RequireMode(t, "std")
+	kit.Check(t, kit.Prop[c15gCase]{
+		ID: "C15", Quick: 60, Thor: 3000,
+		Rule: "Gradient built with probe interval 0 (the library's default interval, whose value is not assumed), fed app-limited drop-free samples: after each RTT step up the obsolete baseline is reset within 2 x 50000 samples (a sanity bound far above any plausible default); non-trivial = every case (at least one reset observed)",
+		Gen: func(t *rapid.T) c15gCase {
+			var c c15gCase
+			c.Cfg = LimitCfg{Algo: "gradient", JitterSeed: rapid.Int64Range(1, 1<<40).Draw(t, "jitter"), Queue: "fixed:1", RTTTol: 2, ProbeInterval: 0}
+			c.Cfg.Max = rapid.IntRange(4, 200).Draw(t, "max")
+			c.Cfg.Min = rapid.IntRange(1, 4).Draw(t, "min")
+			c.Cfg.Initial = rapid.IntRange(c.Cfg.Min, c.Cfg.Max).Draw(t, "initial")
+			c.Cfg.Smoothing = genSmoothing().Draw(t, "smoothing")
+			c.LowN = rapid.IntRange(1, 5).Draw(t, "lowN")
+			c.Low = rapid.Int64Range(1, 1_000_000).Draw(t, "low")
+			c.High = c.Low + rapid.Int64Range(1, 1_000_000).Draw(t, "dhigh")
+			c.Steps = rapid.IntRange(0, 1).Draw(t, "steps")
+			return c
+		},
+		Run: runC15G,
+	})
+}
